@@ -290,8 +290,11 @@ def run_moasha(spec):
 
     def feed(op, tid, r, fn):
         raw = metric_values(spec["seed"], tid, r, k, spec["style"])
-        res = {m: v for m, v in zip(metrics, raw)}
-        res[TIME] = r
+        # training scripts list their metrics in any order (and the resource anywhere among them)
+        items = [(m, v) for m, v in zip(metrics, raw)] + [(TIME, r)]
+        if spec.get("shuffle_keys", True):
+            random.Random(spec["seed"] * 31 + tid * 7 + r).shuffle(items)
+        res = dict(items)
         inp = {"op": op, "trial": tid, "iter": r, "metrics": [frac_str(v) for v in raw]}
         before = snapshot(sch)
         try:
